@@ -341,12 +341,31 @@ func ruleConcurrency(c *Ctx) {
 	c.Doc(R3, "every goroutine started by the library sends only on channels created in its enclosing function and closes each of them on every path to its exit (no path from the goroutine's entry to a return avoids close(ch))")
 	c.Floor(R3, 4)
 	for _, g := range goInstrs {
-		mc, ok := g.Call.Value.(*ssa.MakeClosure)
-		if !ok {
-			c.Undecided(R3, c.P.FuncName(g.Parent())+"/go", g.Pos(), "goroutine body is not a closure literal")
+		// the goroutine body: a closure literal, or a function/method of the repository started with
+		// its arguments (channels handed over as parameters are traced back to the go statement)
+		var cl *ssa.Function
+		if mc, ok := g.Call.Value.(*ssa.MakeClosure); ok {
+			cl = mc.Fn.(*ssa.Function)
+		} else if cal := g.Call.StaticCallee(); cal != nil && isRepoFunc(cal) && cal.Blocks != nil {
+			cl = cal
+		}
+		if cl == nil {
+			c.Undecided(R3, c.P.FuncName(g.Parent())+"/go", g.Pos(), "goroutine body is neither a closure literal nor a function of the repository")
 			continue
 		}
-		cl := mc.Fn.(*ssa.Function)
+		goParent := g.Parent()
+		origChanSource := chanSource
+		chanSource := func(v ssa.Value) ssa.Value {
+			src := origChanSource(v)
+			if p, ok := src.(*ssa.Parameter); ok && p.Parent() == cl {
+				for i, q := range cl.Params {
+					if q == p && i < len(g.Call.Args) {
+						return origChanSource(g.Call.Args[i])
+					}
+				}
+			}
+			return src
+		}
 		name := c.P.FuncName(cl)
 		c.Fn(name)
 		sent := map[ssa.Value]bool{}
@@ -356,7 +375,7 @@ func ruleConcurrency(c *Ctx) {
 			switch x := ins.(type) {
 			case *ssa.Send:
 				src := chanSource(x.Chan)
-				if _, ok := src.(*ssa.MakeChan); !ok || src.(*ssa.MakeChan).Parent() != cl.Parent() {
+				if _, ok := src.(*ssa.MakeChan); !ok || src.(*ssa.MakeChan).Parent() != goParent {
 					bad += "send on a channel not created by the enclosing function; "
 					return
 				}
